@@ -290,6 +290,34 @@ def check_config(cfg, w, rep):
     if is_async:
         rep.floor("state_takes", n_take, 3, cfg)
 
+    # ---- (j) a handle opened for a key commits under that key, whatever the key's text: every source of a keyed writer's `key`
+    #      field in a function that is given a key is `Some(<that key>)` — never None, and never chosen by looking at the key
+    #      (an empty key is a key; "" is not a spelling of "no key") ----
+    n_key = 0
+    for own in ("put::Writer", "put::SyncWriter"):
+        for (b_, blk_, i_, op_) in prog.field_sources(own, "key"):
+            if op_ is None:
+                continue
+            f_ = prog.owner_fn(b_)
+            tm = w.sym.of_operand(b_, op_)
+            parts = list(walk(tm))
+            from .c09 import param_kind as _pk
+            strs = [i for i in range(len(f_.outer.j.get("sig_inputs", []))) if _pk(f_, i) == "key" or
+                    f_.outer.j["sig_inputs"][i].replace("'a ", "").replace("'_ ", "") in ("&str", "&std::string::String")]
+            keyed = [st for st in parts if st[0] == "param" and st[1] == f_.path and st[2] in strs]
+            nones = [st for st in parts if st[0] == "agg" and st[1].endswith("Option") and st[2] == "None"]
+            n_key += 1
+            exact = tm[0] == "agg" and tm[1].endswith("Option") and tm[2] == "Some" and tm[3] and tm[3][0][1][0] == "param" and \
+                tm[3][0][1][1] == f_.path and tm[3][0][1][2] in strs and not tm[3][0][1][3]
+            if strs and not exact:
+                rep.violation("j-key-kept:%s" % fn_key(f_),
+                              "`%s` is given a key but does not unconditionally keep it for the commit (key field := %s): a write under such a key "
+                              "would succeed without becoming readable by that key" % (short(f_.path), term_str(tm)[:90]),
+                              loc=blk_loc(b_, blk_), config=cfg, rule="j-key-kept")
+            else:
+                rep.ob(cfg, "j-key-kept", "%s:%s" % (fn_key(f_), own), "`%s` sets the writer's key to %s" % (short(f_.path), "Some(<its key parameter>)" if keyed else "None (no key parameter)"))
+    rep.floor("writer_key_sources", n_key, 2 if not is_async else 4, cfg)
+
     # ---- (d) published under CONTENT_PATH(cache, builder.result()); the commit indexes that integrity (or the declared one) ----
     for e in w.inv.effects:
         if e.kind == "Persist":
